@@ -59,6 +59,11 @@ def cases(draw, tier):
     if case["single"]:
         case["tol_exp"] = max(case["tol_exp"], -5)
         case["kappa"] = min(case["kappa"], 100.0)
+    case["crhs"] = (not cplx) and sub in ("optimal", "stopping", "via_inv", "columns", "optimal_tol", "zero_rhs") and draw(st.integers(1, 5)) == 1
+    if sub == "zero_rhs" and draw(st.booleans()):
+        # the zero column meets a drawn guess in single precision in half of the zero_rhs cases
+        case["single"], case["x0"], case["zero_col"] = True, "drawn", False
+        case["tol_exp"], case["kappa"] = max(case["tol_exp"], -5), min(case["kappa"], 100.0)
     if case["zero_col"] and case["x0"] == "drawn":
         case["x0"] = "zero"  # the relative criterion is undefined for a zero column with a non-zero guess
     if sub == "optimal":
@@ -105,6 +110,9 @@ def build_system(case):
     rng = np.random.default_rng(seed + 1)
     k = max(case["nrhs"], 1)
     B = rng.standard_normal((n, k)) + (1j * rng.standard_normal((n, k)) if cplx else 0)
+    if case.get("crhs") and not cplx:
+        # round 6: a complex right-hand side (and guess) for a real symmetric operator - the result is the complex solution
+        B = B + 1j * np.random.default_rng(seed + 7).standard_normal((n, k))
     rk = case.get("rhs_kind", "dense")
     if rk == "unit":  # columns are unit vectors: every other row is exactly zero in all columns
         B = np.zeros_like(B)
@@ -123,13 +131,16 @@ def build_system(case):
         B[:, -1] = 0
     if case["x0"] == "drawn":
         X0 = rng.standard_normal((n, k)) + (1j * rng.standard_normal((n, k)) if cplx else 0)
+        if case.get("crhs") and not cplx:
+            X0 = X0 + 1j * np.random.default_rng(seed + 8).standard_normal((n, k))
     else:
         X0 = np.zeros((n, k), dtype=B.dtype)
     if case["nrhs"] == 0:
         B, X0 = B[:, 0], X0[:, 0]
     if case.get("single"):
         dt = np.complex64 if cplx else np.float32
-        A, B, X0 = A.astype(dt), B.astype(dt), X0.astype(dt)
+        cdt = np.complex64 if np.iscomplexobj(B) else dt
+        A, B, X0 = A.astype(dt), B.astype(cdt), X0.astype(cdt)
     return A, lam, B, X0
 
 
@@ -205,6 +216,8 @@ def check(case, out):
     eps = np.finfo(np.float32 if case.get("single") else np.float64).eps
     if case.get("single"):
         out.label("single_precision")
+    if case.get("crhs"):
+        out.label("rhs:complex_for_real_operator")
     out.nontrivial = (k < n) or P is not None or case["x0"] == "drawn" or (case["nrhs"] >= 2) or case["cplx"]
     site = f"cg:{'P' if P is not None else 'noP'}:{'x0' if case['x0'] == 'drawn' else 'x0=0'}"
 
